@@ -1,10 +1,281 @@
-//! C31 — not built yet.
+//! C31 No fetches to dubious hosts unless allowed.
+//!
+//! Generated host forms are placed in caRepository (rsync) and/or rpkiNotify (https) of a CA and
+//! handed to routinator's collector (`Run::repository`), next to a sibling CA on an unremarkable
+//! host. Every started request is observable: rsync goes to the fake `rvrsync` (invocation log),
+//! https goes through the harness proxy (CONNECT log, whatever the host form).
+//! Oracle, literally from the property text: a host is *flagged* iff it equals `localhost`, is an
+//! IP address literal, or carries an explicit port. Flagged + option off => no log entry for that
+//! authority; unflagged, or option on => the fetch is attempted (vacuity guard).
+//! Forms whose classification the text leaves open (case variants of localhost, trailing dot,
+//! inet_aton-style numeric names) are run and recorded but never judged.
+
+use std::collections::BTreeMap;
+use std::sync::Mutex;
+
+use proptest::prelude::*;
+use routinator::collector::Collector;
+use rpki::uri;
+use serde::{Deserialize, Serialize};
 
 use crate::core::*;
+use crate::erun::scratch_base;
+use crate::httpsrv::*;
 
-pub const IMPLEMENTED: bool = false;
+pub const IMPLEMENTED: bool = true;
 
-pub fn run(_ctx: &Ctx, _rep: &mut Report, _replay: Option<&serde_json::Value>) {
-    eprintln!("C31: check not implemented");
-    std::process::exit(2);
+#[derive(Serialize, Deserialize, Clone, Copy, Debug, PartialEq, Eq)]
+pub enum Placement {
+    /// host in caRepository of a CA without rpkiNotify
+    Rsync,
+    /// host in rpkiNotify; caRepository on a clean host
+    Notify,
+    /// same host in both
+    Both,
+}
+
+#[derive(Serialize, Deserialize, Clone, Debug, PartialEq, Eq)]
+pub struct Case {
+    /// authority as written into the URIs
+    pub authority: String,
+    /// generator's label for the form (histogram only, not used by the oracle)
+    pub form: String,
+    pub placement: Placement,
+    pub allow: bool,
+    pub sibling: String,
+}
+
+#[derive(Clone, Copy, Debug, PartialEq, Eq)]
+pub enum Class {
+    Flagged,
+    Clean,
+    /// the statement does not settle it
+    Open,
+}
+
+/// Independent classifier written from the property text.
+pub fn classify(authority: &str) -> Class {
+    // explicit port / IPv6 literal: both need a colon; a bracketed literal starts with '['
+    if authority.starts_with('[') {
+        return Class::Flagged;
+    }
+    if authority.contains('@') {
+        return Class::Open;
+    }
+    if let Some((h, p)) = authority.rsplit_once(':') {
+        let _ = (h, p);
+        // "host:port", or a bare IPv6 literal (which is an IP address literal) — flagged either way
+        return Class::Flagged;
+    }
+    if authority == "localhost" {
+        return Class::Flagged;
+    }
+    // dotted-quad IPv4 literal (RFC 3986 IPv4address)
+    let parts: Vec<&str> = authority.split('.').collect();
+    let dec_octet = |s: &str| !s.is_empty() && s.len() <= 3 && s.bytes().all(|b| b.is_ascii_digit()) && s.parse::<u16>().map(|v| v <= 255).unwrap_or(false);
+    if parts.len() == 4 && parts.iter().all(|p| dec_octet(p)) {
+        // leading zeros ("0177.0.0.1") are not RFC 3986 dec-octets; octal readings are left open
+        if parts.iter().any(|p| p.len() > 1 && p.starts_with('0')) {
+            return Class::Open;
+        }
+        return Class::Flagged;
+    }
+    let lower = authority.to_ascii_lowercase();
+    if lower == "localhost" || lower == "localhost." {
+        return Class::Open;
+    }
+    // names that C libraries / URL parsers read as numeric addresses (127.1, 2130706433, 0x7f.1, trailing dot on a quad)
+    let numericish = lower.trim_end_matches('.').split('.').all(|p| !p.is_empty() && (p.bytes().all(|b| b.is_ascii_digit()) || (p.starts_with("0x") && p.len() > 2 && p[2..].bytes().all(|b| b.is_ascii_hexdigit()))));
+    if numericish {
+        return Class::Open;
+    }
+    Class::Clean
+}
+
+fn label() -> impl Strategy<Value = String> {
+    "[a-z][a-z0-9]{0,6}"
+}
+
+fn clean_name() -> impl Strategy<Value = (String, String)> {
+    prop_oneof![
+        (label(), label()).prop_map(|(a, b)| (format!("{}.{}.example.net", a, b), "name".to_string())),
+        (label(), 0u16..999).prop_map(|(a, n)| (format!("{}{}.example.org", a, n), "name-with-digits".to_string())),
+        (0u8..=255, 0u8..=255, 0u8..=255, 0u8..=255, label()).prop_map(|(a, b, c, d, l)| (format!("{}.{}.{}.{}.{}.example.net", a, b, c, d, l), "quad-prefix-name".to_string())),
+        (0u16..999, label()).prop_map(|(n, l)| (format!("{}.{}.example.org", n, l), "leading-digit-label".to_string())),
+        label().prop_map(|l| (format!("localhost.{}.example.net", l), "contains-localhost".to_string())),
+        label().prop_map(|l| (format!("{}localhost.example.org", l), "contains-localhost".to_string())),
+        (0u8..9).prop_map(|n| (format!("localhost{}", n), "contains-localhost".to_string())),
+        label().prop_map(|l| (format!("{}.localhost", l), "localhost-subdomain".to_string())),
+        (0u8..=255, 0u8..=255, 0u8..=255, 0u16..=999).prop_map(|(a, b, c, d)| (format!("{}.{}.{}.{}x", a, b, c, d), "almost-quad".to_string())),
+    ]
+}
+
+fn ipv6() -> impl Strategy<Value = String> {
+    prop_oneof![
+        Just("::1".to_string()),
+        Just("::".to_string()),
+        (1u16..0xffff, 0u16..0xffff).prop_map(|(a, b)| format!("2001:db8:{:x}::{:x}", a, b)),
+        (0u8..=255, 0u8..=255).prop_map(|(a, b)| format!("::ffff:10.0.{}.{}", a, b)),
+        (1u16..0xffff).prop_map(|a| format!("fe80::{:x}", a)),
+    ]
+}
+
+fn host_form() -> impl Strategy<Value = (String, String)> {
+    let port = prop_oneof![Just(443u16), Just(873u16), Just(8443u16), 1u16..=65535];
+    prop_oneof![
+        3 => Just(("localhost".to_string(), "localhost".to_string())),
+        3 => (0u8..=255, 0u8..=255, 0u8..=255, 0u8..=255).prop_map(|(a, b, c, d)| (format!("{}.{}.{}.{}", a, b, c, d), "ipv4".to_string())),
+        1 => Just(("127.0.0.1".to_string(), "ipv4".to_string())),
+        2 => ipv6().prop_map(|a| (a, "ipv6-bare".to_string())),
+        2 => ipv6().prop_map(|a| (format!("[{}]", a), "ipv6-bracketed".to_string())),
+        1 => (ipv6(), port.clone()).prop_map(|(a, p)| (format!("[{}]:{}", a, p), "ipv6-bracketed-port".to_string())),
+        3 => (clean_name(), port.clone()).prop_map(|((n, _), p)| (format!("{}:{}", n, p), "name-port".to_string())),
+        1 => port.clone().prop_map(|p| (format!("localhost:{}", p), "localhost-port".to_string())),
+        1 => (0u8..=255, 0u8..=255, port.clone()).prop_map(|(a, b, p)| (format!("10.{}.{}.1:{}", a, b, p), "ipv4-port".to_string())),
+        8 => clean_name(),
+        // forms the statement leaves open: run and recorded, never judged
+        1 => prop_oneof![Just("LOCALHOST"), Just("LocalHost"), Just("localhosT")].prop_map(|s| (s.to_string(), "localhost-case".to_string())),
+        1 => Just(("localhost.".to_string(), "localhost-dot".to_string())),
+        1 => prop_oneof![Just("127.1"), Just("2130706433"), Just("0x7f.0.0.1"), Just("0177.0.0.1"), Just("127.0.0.1."), Just("0x7f000001"), Just("10.1")].prop_map(|s| (s.to_string(), "numeric-name".to_string())),
+        1 => (label(), clean_name()).prop_map(|(u, (n, _))| (format!("{}@{}", u, n), "userinfo".to_string())),
+    ]
+}
+
+fn case_strategy() -> impl Strategy<Value = Case> {
+    (host_form(), prop_oneof![Just(Placement::Rsync), Just(Placement::Notify), Just(Placement::Both)], any::<bool>(), label()).prop_map(|((authority, form), placement, allow, sib)| Case { authority, form, placement, allow, sibling: format!("{}.sibling.rpki.test", sib) })
+}
+
+static OPEN_FORMS: Mutex<BTreeMap<String, String>> = Mutex::new(BTreeMap::new());
+
+fn prop(c: &Case, info: &mut CaseInfo) -> Verdict {
+    let class = classify(&c.authority);
+    info.class(format!("form:{}", c.form));
+    info.class(format!("class:{:?}/allow={}", class, c.allow));
+    info.class(format!("placement:{:?}", c.placement));
+    // can rpki's URI types (and therefore a decoded certificate) carry this authority at all?
+    let rsync_uri = uri::Rsync::from_string(format!("rsync://{}/repo/ca/", c.authority));
+    let notify_uri = uri::Https::from_string(format!("https://{}/rrdp/notification.xml", c.authority));
+    let need_rsync = matches!(c.placement, Placement::Rsync | Placement::Both);
+    let need_notify = matches!(c.placement, Placement::Notify | Placement::Both);
+    if (need_rsync && rsync_uri.is_err()) || (need_notify && notify_uri.is_err()) {
+        info.class(format!("unrepresentable:{}", c.form));
+        return Verdict::Pass;
+    }
+    let dir = tempfile::Builder::new().prefix("c31-").tempdir_in(scratch_base()).expect("tmp");
+    let srv = HttpsServer::start();
+    let mut config = client_config(dir.path(), &srv);
+    config.allow_dubious_hosts = c.allow;
+    let clean_repo = uri::Rsync::from_string("rsync://clean.rpki.test/repo/ca/".to_string()).unwrap();
+    let ca_repo = if need_rsync { rsync_uri.clone().unwrap() } else { clean_repo.clone() };
+    let notify = if need_notify { Some(notify_uri.clone().unwrap()) } else { None };
+    // the CA under test sits below a clean trust anchor: its certificate is issued, decoded and validated
+    let ta = ta_ca_cert(3, &clean_repo, None);
+    let ca = child_ca_cert(&ta, 3, 5, &ca_repo, notify.as_ref());
+    // the sibling CA: same placement on an unremarkable host
+    let sib_repo = uri::Rsync::from_string(format!("rsync://{}/repo/ca/", c.sibling)).unwrap();
+    let sib_notify = uri::Https::from_string(format!("https://{}/rrdp/notification.xml", c.sibling)).unwrap();
+    let sib = ta_ca_cert(4, &sib_repo, if need_notify { Some(&sib_notify) } else { None });
+    let mut collector = match Collector::new(&config) {
+        Ok(x) => x,
+        Err(_) => return Verdict::Dropped("collector_new_failed".into()),
+    };
+    if collector.ignite().is_err() {
+        return Verdict::Dropped("ignite_failed".into());
+    }
+    let run = collector.start();
+    let r1 = run.repository(&ca).map(|r| r.map(|r| r.is_rrdp()));
+    let r2 = run.repository(&sib).map(|r| r.map(|r| r.is_rrdp()));
+    drop(run);
+    if r1.is_err() || r2.is_err() {
+        return Verdict::fail(format!("C31/run-failed/form={}", c.form), format!("Run::repository failed the run for authority {:?}", c.authority));
+    }
+    let rsync_calls = rsync_log(dir.path());
+    let https = srv.log();
+    // rsync: log lines are "<authority>/<module>"
+    let rsync_hit = |auth: &str| rsync_calls.iter().any(|l| l.strip_suffix("/repo").map(|a| a.eq_ignore_ascii_case(auth)).unwrap_or(false));
+    // https: CONNECT authority carries the host the client wants; compare host part (client adds :443 and may normalise the host)
+    let https_entries = |auth: &str| -> Vec<String> { https.iter().filter(|r| r.method == "CONNECT").filter(|r| connect_matches(&r.authority, auth)).map(|r| r.authority.clone()).collect() };
+    let all_connects: Vec<String> = https.iter().filter(|r| r.method == "CONNECT").map(|r| r.authority.clone()).collect();
+    // the sibling must always be fetched on every transport in play (vacuity guard + shows the observation works)
+    if need_notify && https_entries(&c.sibling).is_empty() {
+        return Verdict::fail("C31/sibling-not-fetched/https", format!("sibling {} saw no HTTPS request; connects {:?}", c.sibling, all_connects));
+    }
+    if need_rsync && !need_notify && !rsync_hit(&c.sibling) {
+        return Verdict::fail("C31/sibling-not-fetched/rsync", format!("sibling {} saw no rsync invocation; log {:?}", c.sibling, rsync_calls));
+    }
+    let rsync_seen = need_rsync && rsync_hit(&c.authority);
+    // connects not attributable to the sibling belong to the host under test (the client may have normalised it)
+    let foreign: Vec<String> = all_connects.iter().filter(|a| !connect_matches(a, &c.sibling)).cloned().collect();
+    let https_seen = need_notify && !foreign.is_empty();
+    info.nt(class == Class::Flagged && !c.allow);
+    let obs = format!("authority {:?} (form {}, class {:?}) placement {:?} allow-dubious-hosts={}: rsync invocations {:?}, CONNECTs {:?}, repository() = {:?}", c.authority, c.form, class, c.placement, c.allow, rsync_calls, all_connects, r1);
+    match class {
+        Class::Open => {
+            OPEN_FORMS.lock().unwrap().insert(format!("{} allow={} {:?}", c.authority, c.allow, c.placement), format!("rsync invoked: {}, CONNECTs: {:?}", rsync_seen, foreign));
+            info.class(format!("open-form-fetched:{}", rsync_seen || https_seen));
+            Verdict::Pass
+        }
+        Class::Flagged if !c.allow => {
+            if rsync_seen {
+                return Verdict::fail(format!("C31/fetch-to-flagged-host/rsync/form={}", c.form), obs);
+            }
+            if https_seen {
+                return Verdict::fail(format!("C31/fetch-to-flagged-host/https/form={}", c.form), obs);
+            }
+            Verdict::Pass
+        }
+        _ => {
+            // clean host, or option on: the fetch must be attempted (vacuity guard). A bare IPv6 literal
+            // is not a valid https URL authority, the HTTP client cannot even build that request.
+            let bare_v6 = !c.authority.starts_with('[') && c.authority.matches(':').count() >= 2;
+            if need_notify && !https_seen && bare_v6 {
+                info.class("https-unfetchable:bare-ipv6");
+            } else if need_notify && !https_seen {
+                return Verdict::fail(format!("C31/no-fetch/https/class={:?}/allow={}/form={}", class, c.allow, c.form), obs);
+            }
+            // with rpkiNotify present rsync is only a fallback; demand it only for the rsync-only placement
+            if need_rsync && !need_notify && !rsync_seen {
+                return Verdict::fail(format!("C31/no-fetch/rsync/class={:?}/allow={}/form={}", class, c.allow, c.form), obs);
+            }
+            Verdict::Pass
+        }
+    }
+}
+
+/// Does the CONNECT authority `got` (always host:port) name the URI authority `want`?
+fn connect_matches(got: &str, want: &str) -> bool {
+    let got = got.to_ascii_lowercase();
+    let want = want.to_ascii_lowercase();
+    if got == want {
+        return true;
+    }
+    // URI authority without port -> client adds :443
+    got == format!("{}:443", want) || got == format!("[{}]:443", want)
+}
+
+pub fn run(ctx: &Ctx, rep: &mut Report, replay: Option<&serde_json::Value>) {
+    rep.rule("generated authorities (localhost; dotted IPv4; bare and bracketed IPv6; name/IPv4/IPv6/localhost with explicit port incl. default ports; clean names with digits, quad-like prefixes or containing 'localhost'; open forms: case variants, trailing dot, inet_aton-style numeric names, userinfo) placed in caRepository, rpkiNotify or both of a CA certificate issued under a clean trust anchor (encoded, decoded, validated, CaCert::chain) and handed to Run::repository next to a sibling CA on a clean host, x allow-dubious-hosts; oracle = independent classifier from the property text; flagged+option off => no rvrsync invocation and no CONNECT for that authority; clean or option on => fetch attempted; sibling always fetched; non-trivial = flagged host with the option off (sibling present in every case); distinct by serialised case");
+    rep.assume("every request routinator starts is visible: rsync via the fake rsync command's invocation log, https via the CONNECT log of the harness proxy (rrdp-proxies); authorities rpki's URI types reject ('[', ']', '@') cannot come out of a decoded certificate and are counted as unrepresentable");
+    ctx.shrink_iters.store(200, std::sync::atomic::Ordering::Relaxed);
+    if let Some(v) = replay {
+        let t: Tagged<Case> = serde_json::from_value(v.clone()).expect("replay");
+        run_case(ctx, rep, &t.sub, &t.case, prop);
+        return;
+    }
+    // a fixed list first so that every form is seen in every run, both options, every placement
+    let fixed = ["localhost", "127.0.0.1", "10.2.3.4", "::1", "2001:db8::1", "[::1]", "a.example.net:873", "a.example.net:443", "localhost:8080", "10.0.0.1:873", "a1.example.net", "1.2.3.4.x.example.net", "localhost.example.net", "mylocalhost.example.org", "LOCALHOST", "localhost.", "127.1", "2130706433", "0x7f.0.0.1", "u@a.example.net"];
+    for a in fixed {
+        for placement in [Placement::Rsync, Placement::Notify, Placement::Both] {
+            for allow in [false, true] {
+                let c = Case { authority: a.to_string(), form: "fixed".into(), placement, allow, sibling: "fixed.sibling.rpki.test".into() };
+                run_case(ctx, rep, "fixed", &c, prop);
+                if rep.violated() {
+                    return;
+                }
+            }
+        }
+    }
+    run_prop_par(ctx, rep, "generated", ctx.tier.pick(240, 3000), 8, case_strategy, prop);
+    let open = OPEN_FORMS.lock().unwrap().clone();
+    rep.extra.insert("open_forms_observed".into(), serde_json::json!(open.into_iter().take(60).collect::<BTreeMap<_, _>>()));
 }
